@@ -1069,7 +1069,7 @@ pub fn run(ctx: &Ctx) -> Outcome {
         }
     };
     // (a) every combination of three defects (requests, responses)
-    let max_defects = if ctx.tier.is_quick() { 4 } else { 5 };
+    let max_defects = if ctx.tier.is_quick() { 5 } else { 7 };
     let req3: Vec<Case> = request_cases_n(max_defects).into_iter().filter(|c| c.label.matches(" / ").count() >= 3).collect();
     par_for(req3.len(), |i| {
         if over() {
